@@ -38,16 +38,28 @@ def acceptable(kind, value, tree):
         dirparts, fname = parts[:-1], parts[-1]
         node = tree
         ok = True
+        stack = [tree]  # the directories walked through; '..' steps back (only below the simfile directory)
+        walked = []
         for d in dirparts:
             if d in ("", "."):
                 continue
+            if d == "..":
+                if len(stack) > 1:
+                    stack.pop()
+                    walked.pop()
+                    continue
+                ok = False
+                break
+            node = stack[-1]
             if isinstance(node, dict) and isinstance(node.get(d), dict):
-                node = node[d]
+                stack.append(node[d])
+                walked.append(d)
             else:
                 ok = False
                 break
+        node = stack[-1]
         if ok and isinstance(node, dict):
-            hits = {tuple([d for d in dirparts if d not in ("", ".")] + [n]) for n in node if n.lower() == fname.lower()}
+            hits = {tuple(walked + [n]) for n in node if n.lower() == fname.lower()}
             if hits:
                 return hits
     return {(n,) for n in tree if matches(kind, n)}
